@@ -518,6 +518,7 @@ func checkC03(w *World, r *Report) {
 	conserveRule(w, r, "C03.conserve", a)
 	persistRule(w, r, "C03.persist", a)
 	orderRule(w, r, "C03.order", a)
+	keyPurityRule(w, r, "C03.burnkey")
 	loopVarRule(w, r, "C03.loopvar", "cfedistributor")
 }
 
@@ -1045,6 +1046,7 @@ func checkC04(w *World, r *Report) {
 					}
 				}
 			}
+			keyPurityRule(w, r, "C04.key")
 			uses := false
 			for _, s := range cg.Sites[stateKeyFn] {
 				if calleeIs(s, "x/cfedistributor/types.Account.GetAccountKey") {
@@ -1392,6 +1394,7 @@ func checkC14(w *World, r *Report) {
 	r.Rule("C14.retry", "P5", "the end-of-block pay-out over the stored states is on every path of the distributor's block routine (no early return when nothing arrived): leftovers of failed transfers are retried in every block", 2)
 	r.Rule("C14.wrapper", "P4,P6", "every bank transfer or burn in the distributor's block tree sits in a keeper wrapper that passes its amount and account parameters to the bank unchanged and returns the bank's result: callers reason about the amount they passed", 4)
 	r.Rule("C14.inflow", "P6", "= C03.inflow: leftovers of failed transfers stay in the main account and in the states; the main inflow subtracts the current sum of all of them from the current balance, so that they are neither distributed a second time nor dropped", 3)
+	r.Rule("C14.conserve", "P5,P6", "= C03.conserve: whatever a sub-distributor collected - leftovers of failed transfers included - is credited to destinations on every path, once", 6)
 	r.Rule("C14.persist", "P5", "= C03.persist", 3)
 	r.Rule("C14.noerrorexit", "P5", "= C10.swallow: bank errors in the distributor's block tree are logged and never escalate to a panic or an error return", 5)
 	if !ro.checkFloors(r) {
@@ -1501,6 +1504,7 @@ func checkC14(w *World, r *Report) {
 	}
 	wrapperRule(w, r, "C14.wrapper")
 	persistRule(w, r, "C14.persist", a)
+	conserveRule(w, r, "C14.conserve", a)
 	shareRule(w, r, checkC03, "C03.inflow", "C14.inflow", nil)
 	// ---------- C14.noerrorexit ----------
 	dreach := cg.Reach(ro.BLK["cfedistributor"])
@@ -2138,4 +2142,28 @@ func payoutThresholdRule(w *World, r *Report, rule string) {
 			r.Check(yes, rule, construct, w.Pos(fn.Pos()), "answers yes", "a state to which a whole unit is due is not paid out this block: the destination lags behind its share by more than one unit")
 		}
 	}
+}
+
+// keyPurityRule: the store key of a state is built from the account's fields as they are spelled: the in-memory lookup
+// (and the uniqueness checks of validation) compare those very strings, so a key that parses or normalises a field
+// first maps two accounts that every other site keeps apart to one store entry.
+func keyPurityRule(w *World, r *Report, rule string) {
+	keyFn := w.Func("x/cfedistributor/types.Account.GetAccountKey")
+	if keyFn == nil {
+		r.Unk("infra.anchor", "x/cfedistributor/types.Account.GetAccountKey", "", "anchor not found")
+		return
+	}
+	tr := w.Tracer()
+	pure, bad := true, ""
+	for _, ret := range Returns(keyFn) {
+		o := tr.Origins(retVals(ret)[0])
+		for c := range o.Calls {
+			n := callName(c.Common())
+			if strings.Contains(n, "Bech32") || strings.HasSuffix(n, "AccAddress.String") || strings.HasPrefix(n, "strings.") || strings.Contains(n, "Sprintf") {
+				pure = false
+				bad = n
+			}
+		}
+	}
+	r.Check(pure, rule, "the persistence key is built from the account's fields as spelled", w.Pos(keyFn.Pos()), "no parsing or normalising call on the key's backward slice", "the store key of a state is computed from a parsed / normalised rendering ("+bad+") while the in-memory lookup compares the fields as spelled: two accounts that validation and the block routine keep apart share one store entry, and one state's leftovers overwrite the other's")
 }
